@@ -23,7 +23,7 @@ SPELL = {
 }
 OPEN, CLOSE = {'Lpar', 'Lsqb', 'Lbrace'}, {'Rpar', 'Rsqb', 'Rbrace'}
 PREFIX_KIND = {'': 'String', 'r': 'RawString', 'u': 'Unicode', 'f': 'FString', 'b': 'Bytes', 'rf': 'RawFString', 'fr': 'RawFString', 'rb': 'RawBytes', 'br': 'RawBytes'}
-GAP_DEFAULT = re.compile(r'(?:[ \t\x0c]|\\(?:\r\n|\r|\n)|#[^\r\n]*|\r\n|\r|\n)*\Z')
+GAP_DEFAULT = re.compile(r'(?:[ \t\x0c]|\\(?:\r\n|\r|\n)|#[^\r\n]*+|\r\n|\r|\n)*+\Z')   # possessive: linear time on texts that do not match
 GAP_FULL = re.compile(r'(?:[ \t\x0c]|\\(?:\r\n|\r|\n))*\Z')
 JOIN = re.compile(r'\\(?:\r\n|\r|\n)')
 HAS_BARE_EOL = re.compile(r'\r|\n')
